@@ -77,3 +77,4 @@ let search_gen repaired (line : string) : string =
 
 let () = Reg.register "SEARCH" (search_gen true)
 let () = Reg.register "SEARCH-unrepaired" (search_gen false)
+let () = Reg.register "MATE1" (search_gen true)
